@@ -62,10 +62,12 @@ Theorem C14_stop_releases_workers : forall n m ls0 s ls s' w,
 Proof. exact stop_releases_workers_lemma. Qed.
 Print Assumptions C14_stop_releases_workers.
 
-(* No send on a closed channel; at most one Pause/Resume call is past its first step. *)
+(* No send on a closed channel - because no PauseCh is ever closed; at most one Pause/Resume call
+   is past its first step. *)
 Theorem C14_no_panic_mutex : forall n m ls s,
   run fixed (init n m) ls = Some s ->
   panic s = false /\
+  (forall w, w < nw s -> w_pclosed (wk s w) = false) /\
   forall c c', c < nc s -> c' < nc s -> active (ct s c) = true -> active (ct s c') = true -> c = c'.
 Proof. exact no_panic_lemma. Qed.
 Print Assumptions C14_no_panic_mutex.
